@@ -96,6 +96,23 @@ class Scenario:
             tail = ("block",) if context == "threading" else ("forever", 0.9)
             kit.submit(self._note({"id": "subx%d-%s" % (index, context), "flavour": context,
                                    "steps": steps + [tail]}))
+        for index, (context, flavour, shape) in enumerate(params.get("shapes", ())):
+            # service classes of a particular make; the singleton is constructed twice
+            desc = self._note(dict(worker("shape%d-%s-%s" % (index, shape, flavour), flavour),
+                                   shape=shape), True)
+            steps = [("service", desc)]
+            if shape == "cached":
+                steps += [("sleep", 1.3), ("service", desc)]
+            if context == "before":
+                keep.append(kit.service_instance(desc))
+                outside_jobs += [(1.3, step) for step in steps[2:]]
+            elif context == "outside":
+                outside_jobs += [(0.0 if number == 0 else 1.3, step)
+                                 for number, step in enumerate(steps) if step[0] == "service"]
+            else:
+                tail = ("block",) if context == "threading" else ("forever", 0.9)
+                kit.submit(self._note({"id": "subs%d-%s" % (index, context), "flavour": context,
+                                       "steps": steps + [tail]}))
         if params.get("shielded"):
             kit.submit(self._note({"id": "shielded", "flavour": "trio",
                                    "steps": [("forever", 0.9)],
@@ -112,8 +129,7 @@ class Scenario:
                 elif op == "adopt-many":
                     kit._sync_step(desc, (op, desc, _count[0]))
                 else:
-                    env.log("service-create", id=desc["id"])
-                    keep.append(kit.service_class(desc)())
+                    keep.append(kit.service_instance(desc))
 
         if params.get("stop_by") == "fail":
             # the runtime goes down through the failure path instead of shutdown()
@@ -306,6 +322,11 @@ def scenario_params(tier):
     out.append({"services_before": FLAVOURS, "falsy": True})
     for context, flavour in itertools.product(["outside", "trio"], FLAVOURS):
         out.append({"late": [(context, flavour, "service", 0)], "late_at": 0.0, "falsy": True})
+    # 3c. service classes of a particular make: a singleton constructed twice, a subclass of
+    # a service class (decorated again with another flavour, or not decorated again)
+    for context, flavour, shape in itertools.product(
+            ["before", "outside", "trio"], FLAVOURS, ["cached", "redecorated", "subclass"]):
+        out.append({"shapes": [(context, flavour, shape)]})
     # 3b. the very same callable adopted several times; a service replaced by a new one
     for context, flavour in itertools.product(["queued"] + CONTEXTS, FLAVOURS):
         out.append({"repeat": [(context, flavour, 3)]})
